@@ -425,7 +425,7 @@ def air_cov(ctx, st):
 
 
 def prog_C12(ctx):
-    res = generic(ctx, ['Dc4bcVerif.Props.C12', 'Dc4bcVerif.Props.C12Process', 'Dc4bcVerif.Props.C12Air', 'Dc4bcVerif.Props.C12AirOrder', 'Dc4bcVerif.Props.C20AirMasterKey', 'Dc4bcVerif.Props.AirDkgSrc', 'Dc4bcVerif.Props.C12Seed', 'Dc4bcVerif.Props.C18Air'], 'airdiff', 'air', ['C12'], AIR_TRUSTED +
+    res = generic(ctx, ['Dc4bcVerif.Props.C12', 'Dc4bcVerif.Props.C12Process', 'Dc4bcVerif.Props.C12Air', 'Dc4bcVerif.Props.C12AirOrder', 'Dc4bcVerif.Props.C12AirReinit', 'Dc4bcVerif.Props.C20AirMasterKey', 'Dc4bcVerif.Props.AirDkgSrc', 'Dc4bcVerif.Props.C12Seed', 'Dc4bcVerif.Props.C18Air'], 'airdiff', 'air', ['C12'], AIR_TRUSTED +
             ['translator: every write to and every use of the airgapped machine\'s in-memory base seed, and what dkg.InitDKGInstance does with the slice it is handed (Gen/SeedFacts.lean), regenerated on every run; frand.NewCustom / sha256 / the suite constructor not writing their argument is trusted and exercised by the second-ceremony restarts'],
             'ceremonies (3,2),(2,2) [thorough: +(4,3),(3,3)]; per ceremony one participant: restart before every operation, and (sampled in quick, all in thorough) kill-before-log and kill-after-log at every operation, plus one run restarting after every step; two clones fed the same operations; then a SECOND ceremony of the same participants handled by the same process: the same restart points inside it (sampled in quick), and a machine fed the second ceremony alone; a machine started on an EMPTY database (it keeps the seed it generated; the mnemonic it prints is captured) against a machine made with set_seed from that mnemonic: same seed, long-term key, commitments and share; the airdkg stream: every key-generation operation, and a machine stopped, reopened and replayed after every operation',
             cov_from_stats=air_cov)
